@@ -134,6 +134,15 @@ def base_unit():
 #
 # a multi-shape is the list of its members (`μ`), the argument a single shape `σ`, a multi-shape (list of `σ`) or a
 # coordinate `κ`; the member-level relations `rc rs ri` are parameters about which nothing is assumed.
+#
+# round 2: `bounds` (`shape.bounds` of a member is the parameter `bnd`; `list(zip(*…))` over 4-tuples, `min` / `max` of a
+# sequence raise ValueError when it is empty), `__iter__`, and `split` — the one instance that works on *objects*: it is
+# declared `Heap T` (takes the heap of property dictionaries, returns (heap, result)); a call declared to create an
+# object (`shape.copy()` = the model's `copyMember`, `dict.copy()` = a new dictionary with the same items) threads the
+# heap, a comprehension over such calls is a left-to-right `GV.Py.mapH`, and `for x in xs: x.f = e` replaces every element
+# by the updated record — accepted only over a local list of objects this function created itself (a store through a list
+# whose elements may be shared, e.g. `self.geoshapes`, is outside the subset).  The receiver of `split` is
+# (members, `dt`, address of `_properties`).
 
 def multi_unit():
     src = py2lean.Source(_repo('_base.py'))
@@ -144,7 +153,17 @@ def multi_unit():
         Inst(f'{M}.contains_shape', 'containsMulti', [('self', 'List μ'), ('shape', 'List σ')], 'Bool'),
         Inst(f'{M}.intersects_shape', 'intersectsSingle', [('self', 'List μ'), ('shape', 'σ')], 'Bool'),
         Inst(f'{M}.intersects_shape', 'intersectsMulti', [('self', 'List μ'), ('shape', 'List σ')], 'Bool'),
+        # round 2
+        Inst(f'{M}.bounds', 'bounds', [('self', 'List μ')], 'Except Tuple4 R'),
+        Inst(f'{M}.__iter__', 'iter', [('self', 'List μ')], 'List μ'),
+        # `split` creates objects and stores into them: it takes the heap of property dictionaries and returns (heap, shapes);
+        # the receiver is (members, dt, address of `_properties`)
+        Inst(f'{M}.split', 'split', [('self', 'MultiH')], 'Heap List Shp'),
     ]
+    py2lean.LEAN_TYPE['HeapT'] = 'GV.Multi.Heap'
+    py2lean.LEAN_TYPE.setdefault('MultiH', 'List (GV.Multi.Shp γ) × Option GV.TI × Nat')
+    py2lean.LEAN_TYPE.setdefault('Shp', 'GV.Multi.Shp γ')
+    py2lean.LEAN_TYPE.setdefault('DictRef', 'Nat')
 
     def isinstance_hook(typ):
         return {'List σ': {'MultiShapeBase'}, 'List μ': {'MultiShapeBase'}, 'σ': {'SingleShapeBase'}, 'κ': {'Coordinate'}}.get(typ)
@@ -153,12 +172,22 @@ def multi_unit():
         ('μ', 'contains_coordinate', ('κ',)): ('rc {} {}', 'Bool'),
         ('μ', 'contains_shape', ('σ',)): ('rs {} {}', 'Bool'),
         ('μ', 'intersects_shape', ('σ',)): ('ri {} {}', 'Bool'),
+        ('List μ', '__iter__', ()): ('{}', 'List μ'),
+        # objects: a member's `.copy()` is the model's `copyMember` (same geometry, copied `dt`, a *new* dictionary holding
+        # a deep copy of the properties); `dict.copy()` allocates a new dictionary with the same items
+        ('Shp', 'copy', ()): ('GV.Multi.copyMember {h} {0}', 'Heap Shp'),
+        ('DictRef', 'copy', ()): ('GV.Multi.Heap.alloc {h} (GV.Multi.Heap.read {h} {0})', 'Heap DictRef'),
     }
-    return Unit('SrcMulti', src, 'GV.Src.Multi', ['GeoVerif.Model.Multi'], insts,
-                {'List μ': M, 'List σ': M}, header='variable {μ σ κ : Type}',
-                attr_types={('List μ', 'geoshapes'): ('{}', 'List μ'), ('List σ', 'geoshapes'): ('{}', 'List σ')},
-                hooks={'isinstance': isinstance_hook},
-                ctx_params=[('rc', 'μ → κ → Bool'), ('rs', 'μ → σ → Bool'), ('ri', 'μ → σ → Bool')], abstract=abstract)
+    return Unit('SrcMulti', src, 'GV.Src.Multi', ['GeoVerif.Model.Multi', 'GeoVerif.Model.PyColl'], insts,
+                {'List μ': M, 'List σ': M, 'MultiH': M}, header='variable {μ σ κ γ : Type}',
+                attr_types={('List μ', 'geoshapes'): ('{}', 'List μ'), ('List σ', 'geoshapes'): ('{}', 'List σ'),
+                            ('μ', 'bounds'): ('(bnd {})', 'Tuple4 R'),
+                            ('MultiH', 'geoshapes'): ('{}.1', 'List Shp'), ('MultiH', 'dt'): ('{}.2.1', 'Opt TI'),
+                            ('MultiH', '_properties'): ('{}.2.2', 'DictRef')},
+                hooks={'isinstance': isinstance_hook,
+                       'stores': {('Shp', '_properties'): ('props', 'DictRef'), ('Shp', 'dt'): ('dt', 'Opt TI')}},
+                ctx_params=[('rc', 'μ → κ → Bool'), ('rs', 'μ → σ → Bool'), ('ri', 'μ → σ → Bool'),
+                            ('bnd', 'μ → Rat × Rat × Rat × Rat')], abstract=abstract)
 
 
 # ----------------------------------------------------------------------------------------------------------
